@@ -1,0 +1,41 @@
+//go:build verif
+
+package listener
+
+import (
+	"io"
+	"net"
+	"time"
+
+	"github.com/kelindar/rate"
+)
+
+// Accessors used only by the out-of-tree verification harness (/verif); compiled with -tags verif.
+
+// VerifNewConn wraps a connection exactly as the listener does; without timer the periodic flush is stopped so
+// that the harness decides when Flush runs.
+func VerifNewConn(c net.Conn, writeRate int, timer bool) *Conn {
+	conn := newConn(c, writeRate)
+	if !timer {
+		conn.cancel()
+	}
+	return conn
+}
+
+// VerifSetLimited makes the next Limit() calls of the write limiter answer as requested: a limiter of one event per
+// hour that has already seen its event (limited), or a fresh limiter with a huge budget (not limited).
+func (m *Conn) VerifSetLimited(limited bool) {
+	if limited {
+		l := rate.New(1, time.Hour)
+		l.Limit()
+		m.limit = l
+		return
+	}
+	m.limit = rate.New(1<<30, time.Second)
+}
+
+// VerifStartSniffing is startSniffing.
+func (m *Conn) VerifStartSniffing() io.Reader { return m.startSniffing() }
+
+// VerifDoneSniffing is doneSniffing.
+func (m *Conn) VerifDoneSniffing() { m.doneSniffing() }
